@@ -243,7 +243,7 @@ def release_once(ctx, db, rid):
                 n += 1
                 ev = tr[ul[0]]
                 o = value_origin(f, f.ev(ev.get('recv_ev'))) if ev.get('recv_ev') is not None and f.ev(ev.get('recv_ev')) is not None else value_origin(f, ev.get('orecv') or ev.get('recv'))
-                if o is None or o.k != 'call' or norm(o.get('callee')) != 'std::unique_ptr::release':
+                if (o is None or o.k != 'call' or norm(o.get('callee')) != 'std::unique_ptr::release') and origin_in_trace(tr, ul[0], ev.get('recv'))[0] != 'call(std::unique_ptr::release)':
                     bad = bad or ('the unlocked pointer was not taken out of the ownership by unique_ptr::release()', tr)
                 if nonnull_on_trace(tr, ul[0], ev.get('recv')) is not True:
                     bad = bad or ('unlock on an untested pointer', tr)
